@@ -120,6 +120,12 @@ def val(case, name):
     if case["valmode"] == "ivar":
         # int-valued variables (what pda.to_cfg() and cfg.intersection() produce); terminals stay strings
         return VARS.index(name) if name in VARS else name
+    if case["valmode"] == "pvar":
+        # variables that print alike but are different values (1 and "1"); terminals stay strings
+        return {"A": 1, "B": "1", "C": 2, "D": "2"}.get(name, name) if name in VARS else name
+    if case["valmode"] == "termname":
+        # variables spelled like the stack symbols to_pda() invents for terminals
+        return {"A": "#TERM#a", "B": "#TERM#b", "C": "#TERM#c"}.get(name, name) if name in VARS else name
     if case["valmode"] == "mixed2":
         # terminals that print alike but are different values: 1 and "1", "a b" next to "a" and "b"
         return {"a": 1, "b": "1", "c": "1 1", "zz": "zz"}.get(name, name)
@@ -235,7 +241,7 @@ def shrink_cfg(case):
         if ident != case["hash"]:
             yield mk(hash=ident)
         yield mk(valmode="str", hash=None)
-    if case["valmode"] in ("mixed", "mixed2"):
+    if case["valmode"] in ("mixed", "mixed2", "pvar", "termname"):
         yield mk(valmode="str")
 
 
